@@ -40,7 +40,8 @@ def strategy(tier):
     @st.composite
     def _s(draw):
         cmd = draw(st.sampled_from(["ode2py", "ode2py", "ode2c", "ode2c", "convert", "cellml2ode"]))
-        if cmd == "cellml2ode":
+        if cmd == "cellml2ode" or (cmd == "convert" and draw(st.integers(0, 7)) == 0):
+            # the deprecated `convert` reaches the same conversion through `--to .ode`
             return {"cmd": cmd, "model_kind": "cellml", "file": "noble_1962.cellml", "outname": draw(st.sampled_from([None, "out.ode", "sub/other.ode"])), "verbose": draw(st.booleans()), "config": None}
         kind = draw(st.sampled_from(["corpus", "corpus", "generated", "generated", "generated", "ill-formed", "syntax-error", "missing"]))
         case = {"cmd": cmd, "model_kind": kind}
@@ -71,8 +72,13 @@ def strategy(tier):
             case["format"] = draw(st.sampled_from(["none", "none", "clang-format", None]))
             case["to"] = draw(st.sampled_from([None, ".h", ".c"]))
         else:
-            case["to"] = draw(st.sampled_from([".py", ".h", ".c"]))
+            # every spelling of the target the command accepts (suffix or language name), or no --to at
+            # all, in which case the target is the suffix of the output name
+            case["to"] = draw(st.sampled_from([".py", ".h", ".c", "py", "python", "c", None]))
+            case["jax"] = draw(st.sampled_from([False, False, True]))
         case["outname"] = draw(st.sampled_from([None, None, "result", "result.txt", "sub/dir_out.py", "my.model.out"]))
+        if cmd == "convert" and case["to"] is None:
+            case["outname"] = draw(st.sampled_from(["result.py", "sub/dir_out.py", "my.model.h", "res.c"]))
         # configuration file
         if cmd in ("ode2py", "ode2c") and draw(st.integers(0, 2)) == 0:
             conf = {}
@@ -163,7 +169,9 @@ def _check(case, d):
         fh.write("do not touch\n")
     args = ["/venv/bin/python", "-m", "gotranx", cmd, os.path.basename(fname)]
     eff = {}  # effective options
-    if cmd == "cellml2ode":
+    if kind == "cellml":
+        if cmd == "convert":
+            args += ["--to", ".ode"]
         if case["outname"]:
             args += ["-o", case["outname"]]
         if case["verbose"]:
@@ -185,6 +193,8 @@ def _check(case, d):
             args += ["-b", case["backend"]]
         if case.get("to") is not None:
             args += ["--to", case["to"]]
+        if case.get("jax"):
+            args += ["--jax"]
         if case["outname"]:
             args += ["-o", case["outname"]]
         eff = {
@@ -193,9 +203,13 @@ def _check(case, d):
             "delta": case["delta"] if case["delta"] is not None else 1e-8,
             "remove_unused": case["remove_unused"],
             "format": case.get("format"),
-            "backend": case.get("backend") or "numpy",
+            "backend": case.get("backend") or ("jax" if case.get("jax") else "numpy"),
             "to": case.get("to"),
         }
+        if cmd == "convert":
+            # a language name means that language's usual suffix; without --to the suffix of -o decides
+            t = case.get("to") if case.get("to") is not None else os.path.splitext(case["outname"])[1]
+            eff["to"] = {"c": ".c", "py": ".py", "python": ".py"}.get(t, t)
         conf = case.get("config")
         if conf:
             section = "python" if cmd == "ode2py" else "c"
@@ -246,7 +260,7 @@ def _check(case, d):
     import warnings
 
     B.quiet()
-    if cmd == "cellml2ode":
+    if kind == "cellml":
         from gotranx.myokit import cellml_to_gotran
 
         exp_path = os.path.join(d, "expected.ode")
@@ -269,13 +283,13 @@ def _check(case, d):
         target = cmd
         to = eff.get("to")
         if cmd == "convert":
-            target = "ode2py" if to in (".py", "python", "py") else "ode2c"
+            target = "ode2py" if to == ".py" else "ode2c"
         try:
             with warnings.catch_warnings():
                 warnings.simplefilter("ignore")
                 if target == "ode2py":
                     fmt = PythonFormat(eff["format"]) if eff.get("format") else PythonFormat.black
-                    text = gotran2py.get_code(ode, scheme=sch, format=fmt, remove_unused=eff["remove_unused"], stiff_states=eff["stiff"], delta=eff["delta"], backend=gotran2py.Backend(eff["backend"] if cmd == "ode2py" else "numpy"))
+                    text = gotran2py.get_code(ode, scheme=sch, format=fmt, remove_unused=eff["remove_unused"], stiff_states=eff["stiff"], delta=eff["delta"], backend=gotran2py.Backend(eff["backend"]))
                     suffix = ".py" if cmd == "ode2py" else to
                 else:
                     os.environ["PATH"] = "/venv/bin" + os.pathsep + os.environ.get("PATH", "")
@@ -314,7 +328,7 @@ def _check(case, d):
     got = after[out_rel]
     if got != expected:
         raise Violation(f"C18:{cmd}:output-differs-from-api", dict(ctx, effective=eff, diff=_first_diff(expected.decode(errors="replace"), got.decode(errors="replace"))))
-    nondefault = sum(1 for k in ("schemes", "stiff", "delta", "remove_unused", "format", "backend", "to", "outname") if case.get(k)) + (2 if case.get("config") else 0)
+    nondefault = sum(1 for k in ("schemes", "stiff", "delta", "remove_unused", "format", "backend", "to", "jax", "outname") if case.get(k)) + (2 if case.get("config") else 0)
     return {"nontrivial": nondefault >= 2, "labels": labs}
 
 
@@ -326,7 +340,7 @@ def lowlevel_text(ode, target, eff, fmt, cmd):
         from gotranx.codegen.python import PythonCodeGenerator, Format, get_formatter
         from gotranx.codegen.jax import JaxCodeGenerator
 
-        backend = eff["backend"] if cmd == "ode2py" else "numpy"
+        backend = eff["backend"]
         cg = (PythonCodeGenerator if backend == "numpy" else JaxCodeGenerator)(ode, format=Format.none, remove_unused=eff["remove_unused"])
         comp = [cg.imports(), cg.parameter_index(), cg.state_index(), cg.monitor_index(), cg.missing_index(), cg.initial_parameter_values(), cg.initial_state_values(), cg.rhs(), cg.monitor_values(), ""]
     else:
